@@ -171,8 +171,8 @@ PROPS["C08"] = dict(
                  classifiers={"lockout-max-lt-success": "cls_lockout"}, nontrivial="nt_c08"),
             # notifications never block request processing: decided on the balancer (its callback is the one installed in production);
             # a hang is caught by the watchdog and reported with the history that caused it
-            dict(suite="lbseq", corr=["diff_begin"], monitors=["mon_c03_recover"], classifiers={}, nontrivial="nt_c07")],
-    rule="every breaker history is followed by the recovery script (end in-flight requests, wait > timeout, success_threshold "
+            dict(suite="lbseq", corr=["diff_begin"], monitors=["mon_c03_recover", "mon_c07_lb"], classifiers={}, nontrivial="nt_c07")],
+    rule="balancer level: configurations as the validator accepts them, thresholds beyond 32 bits included; every breaker history is followed by the recovery script (end in-flight requests, wait > timeout, success_threshold "
          "successful requests); non-trivial = the breaker is not CLOSED when the script starts; distinct = by hash of the case term",
     level_text="Theorem: from every state reachable by any history of overlapping requests, after in-flight requests end, waiting "
                "> timeout and success_threshold successes close the breaker with all of them admitted, whenever "
